@@ -19,6 +19,7 @@ type syncState struct {
 	wg      map[*value]int64
 	avals   map[*value]value
 	pools   map[*value][]value // objects Put into pools of the module under test
+	smaps   map[*value]*syncMapModel
 }
 
 // isTargetGlobal reports whether p is the address of a package-level variable
@@ -69,6 +70,21 @@ func (i *interpreter) isTargetPool(p *value) bool {
 		fn = f.Fn
 	}
 	return fn != nil && fn.Pkg != nil && strings.HasPrefix(fn.Pkg.Pkg.Path(), root)
+}
+
+type syncMapModel struct {
+	keys  []string
+	kvals []value
+	vals  []value
+}
+
+func (m *syncMapModel) find(k string) int {
+	for i, x := range m.keys {
+		if x == k {
+			return i
+		}
+	}
+	return -1
 }
 
 func (i *interpreter) sync() *syncState {
@@ -165,6 +181,76 @@ func registerSyncStubs() {
 		}
 		return nil, true
 	}
+	// sync.Map in a sequential harness: a model keyed by concrete string keys
+	// (its real implementation is lock-free code over unsafe pointers, which
+	// the interpreter does not execute). Anything else — another key type, a
+	// symbolic key, a concurrent harness — is reported as unsupported, never
+	// as a finding.
+	smap := func(fr *frame, recv value) *syncMapModel {
+		if fr.i.tree != nil {
+			unsupported("sync.Map in a concurrent harness")
+		}
+		p := recv.(*value)
+		st := fr.i.sync()
+		if st.smaps == nil {
+			st.smaps = map[*value]*syncMapModel{}
+		}
+		if st.smaps[p] == nil {
+			st.smaps[p] = &syncMapModel{}
+		}
+		return st.smaps[p]
+	}
+	skey := func(k value) string {
+		it, ok := k.(iface)
+		if ok {
+			if str, ok := it.v.(string); ok {
+				return str
+			}
+		}
+		unsupported("sync.Map key that is not a concrete string")
+		return ""
+	}
+	externals["(*sync.Map).Load"] = ext1(func(fr *frame, a []value) value {
+		m := smap(fr, a[0])
+		if k := m.find(skey(a[1])); k >= 0 {
+			return tuple{m.vals[k], true}
+		}
+		return tuple{iface{}, false}
+	})
+	externals["(*sync.Map).Store"] = ext1(func(fr *frame, a []value) value {
+		m := smap(fr, a[0])
+		key := skey(a[1])
+		if k := m.find(key); k >= 0 {
+			m.vals[k] = a[2]
+		} else {
+			m.keys, m.kvals, m.vals = append(m.keys, key), append(m.kvals, a[1]), append(m.vals, a[2])
+		}
+		return nil
+	})
+	externals["(*sync.Map).LoadOrStore"] = ext1(func(fr *frame, a []value) value {
+		m := smap(fr, a[0])
+		key := skey(a[1])
+		if k := m.find(key); k >= 0 {
+			return tuple{m.vals[k], true}
+		}
+		m.keys, m.kvals, m.vals = append(m.keys, key), append(m.kvals, a[1]), append(m.vals, a[2])
+		return tuple{a[2], false}
+	})
+	externals["(*sync.Map).Delete"] = ext1(func(fr *frame, a []value) value {
+		m := smap(fr, a[0])
+		if k := m.find(skey(a[1])); k >= 0 {
+			m.keys, m.kvals, m.vals = append(m.keys[:k:k], m.keys[k+1:]...), append(m.kvals[:k:k], m.kvals[k+1:]...), append(m.vals[:k:k], m.vals[k+1:]...)
+		}
+		return nil
+	})
+	for _, name := range []string{"Range", "LoadAndDelete", "Swap", "CompareAndSwap", "CompareAndDelete", "Clear"} {
+		name := name
+		externals["(*sync.Map)."+name] = func(fr *frame, a []value) (value, bool) {
+			unsupported("sync.Map.%s has no model", name)
+			return nil, true
+		}
+	}
+
 	// sync.Pool. Pools of the standard library and of dependencies never retain
 	// anything (one of the behaviours the real pool is allowed to show, and the
 	// one that does not multiply paths). A pool that is a package-level variable
